@@ -184,6 +184,104 @@ class Adapter:
         }
 
 
+class CoreAdapter(Adapter):
+    """the reference assembly (the Adapter's world) inside a real Core with follower assemblies; Manage = manageCoreMesh"""
+
+    def build_core(self, A, F):
+        from armi.reactor import geometry, grids, reactors
+        from armi.reactor.converters.axialExpansionChanger.axialExpansionChanger import makeAssemsAbleToSnapToUniformMesh
+        from armi.reactor.flags import Flags
+
+        w = self.build(A)
+        r = reactors.Reactor("c12", None)
+        core = reactors.Core("core")
+        r.add(core)
+        core.spatialGrid = grids.HexGrid.fromPitch(20.0)
+        core.spatialGrid.symmetry = geometry.SymmetryType(geometry.DomainType.FULL_CORE, geometry.BoundaryType.NO_SYMMETRY)
+        core.spatialGrid.armiObject = core
+        core.spatialGrid.geomType = geometry.GeomType.HEX
+        ref = w["a"]
+        ref.setType("fuel", Flags.FUEL)
+        fols = []
+        for f in F:
+            a = gen.build_assembly({"types": f["types"], "hs": f["hs"], "hd": f["hd"], "top": "", "expl": [""] * (len(f["types"]) + 1), "hot": 0},
+                                   self.CT, self.BT)
+            a.setType("fuel" if f["fuel"] else "control", Flags.FUEL if f["fuel"] else Flags.CONTROL)
+            fols.append(a)
+        places = [(0, 0), (1, 0), (0, 1), (-1, 1), (-1, 0), (0, -1), (1, -1)]
+        for a, (i, j) in zip([ref] + fols, places):
+            for b in a:
+                b.p.axMesh = 1  # what the blueprints set; Core.updateAxialMesh divides by it
+            core.add(a, core.spatialGrid[i, j, 0])
+        if core.refAssem is not ref:
+            raise tlc.MachineryError("the reference assembly of the built core is not the modelled one")
+        makeAssemsAbleToSnapToUniformMesh(core.getAssemblies(), [], core.refAssem)
+        w.update(r=r, fols=fols, F=F)
+        for a in fols:
+            for b in a:
+                for c in b:
+                    w["init"][id(c)] = (dict(c.getNumberDensities()), c.getArea(), c.getMass())
+        return w
+
+    def apply(self, w, act):
+        if act["n"] == "Manage":
+            w["err"] = ""
+            w["chg"].manageCoreMesh(w["r"])
+            if not w["A"]["det"]:
+                w["expanded"] = True  # calculateZCoords has put the elevations into the reference assembly's grid
+            return ""
+        return Adapter.apply(self, w, act)
+
+    def project_core(self, w):
+        out = []
+        for a, f in zip(w["fols"], w["F"]):
+            comp = []
+            for ib, b in enumerate(a):
+                row = []
+                for n in f["names"][ib]:
+                    c = b.getComponentByName(n)
+                    nd0, area0, m0 = w["init"][id(c)]
+                    nd = c.getNumberDensities()
+                    rs = [nd.get(k, 0.0) / v for k, v in nd0.items() if v > 0.0]
+                    r = max(rs) if max(rs) - min(rs) <= 1e-12 * max(rs) else "nuclides scaled differently"
+                    row.append({"name": n, "lin": r * c.getArea() / area0 if isinstance(r, float) else r, "mass": c.getMass() / m0})
+                comp.append(row)
+            bounds = [float(x) for x in a.spatialGrid._bounds[2]]
+            out.append({"h": [float(b.p.height) for b in a], "zt": [float(b.p.ztop) for b in a], "zb": [float(b.p.zbottom) for b in a],
+                        "comp": comp, "_bounds": bounds, "_total": float(a.getTotalHeight())})
+        cm = w["r"].core.p.axialMesh
+        return out, ([] if cm is None else [float(x) for x in cm])
+
+
+def run_core_case(ad, case):
+    w = ad.build_core(case["A"], case["F"])
+    path = case["path"]
+    try:
+        for act in path:
+            ad.apply(w, act)
+        got = ad.project(w)
+        fgot, cm = ad.project_core(w)
+    except Exception as ex:  # noqa: BLE001
+        import traceback
+
+        return {"first_difference": ".exception: %s escaped from the real code: %s" % (type(ex).__name__, str(ex)[:300]), "A": case["A"],
+                "F": case["F"], "behaviour": path, "action": path[-1] if path else {"n": "Init"}, "expected": case["obs"],
+                "observed": {"exception": traceback.format_exc()[-2000:]}}
+    d = compare(obs_to_float(case["obs"]), got)
+    if not d:
+        fexp = [{"h": [q(x) for x in f["h"]], "zt": [q(x) for x in f["zt"]], "zb": [q(x) for x in f["zb"]],
+                 "comp": [[dict(c, lin=q(c["lin"]), mass=q(c["mass"])) for c in blk] for blk in f["comp"]]} for f in case["fobs"]]
+        d = rp.diff({"fol": fexp, "coreMesh": [q(x) for x in case["coreMesh"]]}, {"fol": fgot, "coreMesh": cm}, rtol=RTOL, atol=ATOL)
+        # the follower's own grid bounds must be its elevations after a snap (calculateZCoords)
+        if not d and path and path[-1]["n"] == "Manage" and not case["A"]["det"]:
+            for i, f in enumerate(fgot):
+                d = d or rp.diff({"bounds": [0.0] + f["zt"]}, {"bounds": f["_bounds"]}, ".fol[%d]" % i, rtol=RTOL, atol=ATOL)
+    if d:
+        return {"first_difference": d, "A": case["A"], "F": case["F"], "behaviour": path, "action": path[-1] if path else {"n": "Init"},
+                "expected": {"obs": case["obs"], "fobs": case["fobs"], "coreMesh": case["coreMesh"]}, "observed": {"ref": got, "fol": fgot, "coreMesh": cm}}
+    return None
+
+
 def compare(exp, got):
     e = dict(exp)
     g = dict(got)
@@ -319,7 +417,7 @@ def run(rep, tier, seed):
             rep.violation(k, "real assembly diverges from AxialExpansion after %s: %s" % (json.dumps(d["action"])[:300], d["first_difference"]),
                           dict(d, direction="replay"))
         mid = cases[len(cases) // 2]
-        rep.sample({"kind": fam, "design": {k: mid["A"][k] for k in ("types", "hs", "top", "hd", "det", "expl")}, "calls": mid["path"],
+        rep.sample({"kind": fam, "design": {k: mid["A"][k] for k in ("types", "hs", "top", "hd", "det", "hot", "expl")}, "calls": mid["path"],
                     "expected": {k: mid["obs"][k] for k in ("zt", "h", "err", "tname")}})
 
         # 3b. the refuted literal clauses: shortest refuting behaviour, measured on the real code
@@ -368,7 +466,8 @@ def run(rep, tier, seed):
         "half-updated (modelled as such, terminal); ValueError from the temperature mapping leaves the lower blocks at their new temperature",
         "conservation clauses are read per block as written; 'expand then inverse restores' is read within the scope of the "
         "preceding clause (both changes give the solids of each block one common fraction)",
-        "materials: L_A = 1 + (Tc-25)/5000, L_B = 1 + (Tc-25)/10000 (subclasses of HT9), temperature-independent fluid density",
+        "materials: L_A = 1 + Tc/5000, L_B = 1 + Tc/10000 (subclasses of HT9), temperature-independent fluid density; input temperature 0.0 C, "
+        "temperature fields take the values -250, 0.0, 250, 500 C; some designs are built hot (500 C) with marginal cold radial overlaps",
         "tolerances: rtol 1e-9 (a handful of double operations), atol 1e-12 cm (degenerate heights are exact zeros in the specification)",
     )
 
@@ -430,13 +529,15 @@ def measure_clause(ad, case, clause):
 # code -> spec
 # ------------------------------------------------------------------------------------------------------------
 TRACE_DESIGNS = [
-    {"types": ["shield", "fuel", "plenum"], "hs": [4, 8, 4], "hd": 32, "top": "", "det": True},
-    {"types": ["fuel", "fuel", "plenumd"], "hs": [8, 4, 2], "hd": 16, "top": "", "det": False},
-    {"types": ["shieldd", "fueld", "fueld", "plenumd"], "hs": [2, 4, 4, 2], "hd": 24, "top": "", "det": True},
-    {"types": ["fuelb", "bigfuel", "plenum"], "hs": [4, 4, 4], "hd": 12, "top": "", "det": False},
-    {"types": ["shield", "fuel", "fuel"], "hs": [4, 8, 4], "hd": 16, "top": "plenum", "det": False},  # no dummy: the plenum is chopped
-    {"types": ["fuel", "fuel"], "hs": [4, 4], "hd": 8, "top": "fuel", "det": False},
-    {"types": ["fuel"], "hs": [4], "hd": 8, "top": "plenum", "det": True},  # no dummy + detailed: refused
+    {"types": ["shield", "fuel", "plenum"], "hs": [4, 8, 4], "hd": 32, "top": "", "det": True, "hot": 0},
+    {"types": ["fuel", "fuel", "plenumd"], "hs": [8, 4, 2], "hd": 16, "top": "", "det": False, "hot": 0},
+    {"types": ["shieldd", "fueld", "fueld", "plenumd"], "hs": [2, 4, 4, 2], "hd": 24, "top": "", "det": True, "hot": 0},
+    {"types": ["fuelb", "bigfuel", "plenum"], "hs": [4, 4, 4], "hd": 12, "top": "", "det": False, "hot": 0},
+    {"types": ["shield", "fuel", "fuel"], "hs": [4, 8, 4], "hd": 16, "top": "plenum", "det": False, "hot": 0},  # no dummy: the plenum is chopped
+    {"types": ["fuel", "fuel"], "hs": [4, 4], "hd": 8, "top": "fuel", "det": False, "hot": 0},
+    {"types": ["fuel"], "hs": [4], "hd": 8, "top": "plenum", "det": True, "hot": 0},  # no dummy + detailed: refused
+    {"types": ["fuel", "fuel", "plenums"], "hs": [4, 4, 4], "hd": 16, "top": "", "det": False, "hot": 2},  # built hot, marginal sleeve link
+    {"types": ["fuel", "plenumr"], "hs": [4, 4], "hd": 8, "top": "", "det": True, "hot": 2},
 ]
 
 
